@@ -3,7 +3,7 @@
    wrote / read and answers with a boolean, evaluated by vm_compute inside coqc.  Definitions only. *)
 From Coq Require Import ZArith Ascii String Bool List.
 Import ListNotations.
-Require Import MD.Gen.CodecTables MD.Codec.Model MD.Codec.XtcModel.
+Require Import MD.Gen.CodecTables MD.Codec.Model MD.Codec.XtcModel MD.Codec.GlueModel MD.Codec.FixedCols.
 Open Scope Z_scope.
 
 Definition la := list_ascii_of_string.
@@ -113,11 +113,25 @@ Definition chk_rst7 (coords_nm : list dy) (cell : option (list dy * list dy)) (l
   lines_eqb (rst7_coord_lines (ang coords_nm) ++
              match cell with Some (l, a) => [rst7_box_line (ang l) a] | None => [] end) lines.
 
+(* the fixed-column readers (FixedCols.v) extract the quantised numbers from mdtraj's CRYST1 record / restart lines *)
+Definition chk_cryst1_read (lens_nm angs : list dy) (l : string) : bool :=
+  opt_eqb nums_eqb (cryst1_read (la l)) (Some (map (qnum cryst_len_p) (ang lens_nm) ++ map (qnum cryst_ang_p) angs)).
+Definition chk_rst7_read (coords_nm : list dy) (cell : option (list dy * list dy)) (lines : list string) : bool :=
+  let groups := chunks 6 (ang coords_nm) ++ match cell with Some (l, a) => [ang l ++ a] | None => [] end in
+  list_eqb (fun g l => opt_eqb nums_eqb (rst7_line_read (length g) (la l)) (Some (map (qnum rst7_p) g))) groups lines.
+
 (* ---------------------------------------------------------------- binary containers *)
 (* raw numbers an independent reader extracted, against the exact float32 values in file units *)
 Definition chk_container (ext : string) (xs_nm raw : list dy) : bool :=
   match unit_of_ext ext with
-  | Some u => list_eqb dy_eqb (map (to_file_unit u) xs_nm) raw
+  | Some u => list_eqb dy_eqb (map (to_file_unit u) xs_nm) raw &&
+              list_eqb dy_eqb (map (to_file_unit_f u) xs_nm) raw      (* the same with the factor as mdtraj computes it *)
+  | None => false
+  end.
+(* the loader's conversion: md.load returns from_file_unit of every number an independent reader finds in the file *)
+Definition chk_from_file (via64 : bool) (ext : string) (raw loaded : list dy) : bool :=
+  match unit_of_ext ext with
+  | Some u => list_eqb dy_eqb (map (if via64 then from_file_unit_via64 u else from_file_unit u) raw) loaded
   | None => false
   end.
 Definition chk_same (xs raw : list dy) : bool := list_eqb dy_eqb xs raw.
@@ -267,6 +281,11 @@ Definition run_job (j : job) : bool :=
   | 10%nat => chk_container (nth 0 ls EmptyString) xs (raw (p 0%nat))
   | 11%nat => chk_same xs (raw (p 0%nat))
   | 12%nat => chk_xtc false (p 0%nat) (p 1%nat) (j32 j) (map (fun c => Z.of_N (N_of_ascii c)) (jtxt j))
+  | 15%nat => chk_cryst1_read (firstn 3 xs) (skipn 3 xs) (nth 0 ls EmptyString)
+  | 16%nat => let n3 := (length xs - (if nb (p 0%nat) then 6 else 0))%nat in
+              chk_rst7_read (firstn n3 xs)
+                            (if nb (p 0%nat) then Some (firstn 3 (skipn n3 xs), skipn (n3 + 3) xs) else None) ls
+  | 14%nat => chk_from_file (nb (p 1%nat)) (nth 0 ls EmptyString) (raw (p 0%nat)) xs
   | 13%nat => chk_xtc true (p 0%nat) (p 1%nat) (j32 j) (map (fun c => Z.of_N (N_of_ascii c)) (jtxt j))
   | _ => false
   end.
